@@ -881,6 +881,9 @@ class PendingFunctionDef(_PendingCompoundStmt[FunctionDef]):
 
         # copy args and filter annotations
         original_args = node.args
+        positional_args = original_args.posonlyargs + original_args.args
+        if len(positional_args) > 0:
+            self.internal_nsp.first_parameter = positional_args[0].arg
         self.converted_args = converted_args = arguments(
             posonlyargs=[],
             args=[],
